@@ -157,6 +157,20 @@ func init() {
 			if tier == "thorough" {
 				n = 1500
 			}
+			// the published generation uses dedicated containers only (nothing in the default holder) and knows a
+			// default-container field by configuration; the next generation is the first to index that field
+			for _, kind := range []string{"kgroups", "compact"} {
+				c := eCase{Kind: kind, Policy: "error", Configs: map[int]string{0: "", 1: "ac_matcher", 2: "ext_range"}}
+				c.Docs = []eDoc{
+					{ID: 20, Cons: []eConj{{{F: 2, Inc: true, Op: 1, V: tvInt("int64", 18)}}}},
+					{ID: 21, Cons: []eConj{{{F: 1, Inc: true, V: tvStr("red")}, {F: 2, Inc: false, Op: 2, V: tvInt("int64", 5)}}, {}}},
+				}
+				for _, a := range []int64{0, 1, 3, 6, 9} {
+					c.Queries = append(c.Queries, eQuery{A: []eAssign{{F: 0, V: tvInt("int", a)}, {F: 2, V: tvInt("int64", 30)}}}, eQuery{A: []eAssign{{F: 0, V: tvInt("int", a)}}},
+						eQuery{A: []eAssign{{F: 0, V: tvInt("int", a)}, {F: 1, V: tvStr("a red b")}, {F: 2, V: tvInt("int64", 3)}}})
+				}
+				add(c14In{C14: true, Case: c, Ops: []int{0, 4, 2, 0, 4, 1, 2}})
+			}
 			for i := 0; i < n; i++ {
 				c := mixedDocset(r, []string{"kgroups", "compact"}[(i+i/6)%2])
 				ops := []int{0}
